@@ -929,3 +929,43 @@ def dict_from_concrete(d, vt):
     def val(k):
         return ite_value([(k == z3.StringVal(key), v) for key, v in items], vt)
     return VDict(STR, vt, has, val)
+
+
+def dict_abstract(d, vt):
+    """a Python dict constant with string keys as an *opaque* symbolic read-only dict: content named by uninterpreted
+    functions (stable names derived from the content), plus facts that are true of the constant and cheap to state -
+    every string component that takes at most four different values lies in that set.  A sound over-approximation:
+    what is proved about the opaque dict holds for the constant.  returns (VDict, facts)"""
+    import hashlib
+    base = "cdict_" + hashlib.sha1(repr(sorted(d.items())).encode("utf-8")).hexdigest()[:8]
+    hasf = z3.Function(base + "_has", StrS, BoolS)
+
+    def val(k, _vt=vt):
+        old = _STABLE_PREFIX[0]
+        _STABLE_PREFIX[0] = base
+        try:
+            return fresh(_vt, base + "_val", idx=(k,), assume=None)
+        finally:
+            _STABLE_PREFIX[0] = old
+    facts = []
+    kq = z3.String(base + "_k")
+    tmp = []
+    old = _STABLE_PREFIX[0]
+    _STABLE_PREFIX[0] = base
+    try:
+        fresh(vt, base + "_val", idx=(kq,), assume=tmp)
+    finally:
+        _STABLE_PREFIX[0] = old
+    facts.extend(tmp)
+    if isinstance(vt, TList) and isinstance(vt.elem, TTuple):
+        iq = z3.Int(base + "_i")
+        v = val(kq)
+        for pos, t in enumerate(vt.elem.items):
+            if isinstance(t, TStr):
+                seen = sorted({item[pos] for lst in d.values() for item in lst})
+                if 0 < len(seen) <= 4:
+                    comp = v.get(iq).items[pos].t
+                    facts.append(z3.ForAll([kq, iq], z3.Implies(
+                        z3.And(hasf(kq), 0 <= iq, iq < v.n), z3.Or(*[comp == z3.StringVal(x) for x in seen])),
+                        patterns=[comp]))
+    return VDict(STR, vt, lambda k: VBool(hasf(k)), val), facts
